@@ -1,13 +1,14 @@
 package main
 
 import (
-	"os"
 	"bytes"
 	"compress/zlib"
 	"encoding/hex"
 	"errors"
 	"fmt"
 	"io"
+	"math"
+	"os"
 	"sort"
 	"strconv"
 	"strings"
@@ -67,23 +68,26 @@ func (b *fioPlainBuf) Write(p []byte) (int, error) {
 // ---- programs ----
 
 type fioOp struct {
-	kind    byte // A P S O W C Z
-	ref     pdf.Reference
-	obj     pdf.Object
-	same    int // P/S/O: index of an earlier op of the same kind whose Go value (object, *Stream, dict) is written again, or -1
-	stm     *pdf.Stream // S: the stream value handed to Put
-	dictText string     // S/O: the dictionary as it was before the first Writer call saw it
-	dict    pdf.Dict
-	data    []byte
-	filters []string
-	userLen int64 // S/O: caller-supplied /Length, or -1
-	refs    []pdf.Reference
-	objs    []pdf.Object
+	kind     byte // A P S O W C Z
+	ref      pdf.Reference
+	obj      pdf.Object
+	same     int         // P/S/O: index of an earlier op of the same kind whose Go value (object, *Stream, dict) is written again, or -1
+	stm      *pdf.Stream // S: the stream value handed to Put
+	dictText string      // S/O: the dictionary as it was before the first Writer call saw it
+	dict     pdf.Dict
+	data     []byte
+	filters  []string
+	userLen  int64 // S/O: caller-supplied /Length, or -1
+	refs     []pdf.Reference
+	objs     []pdf.Object
 
 	// error-then-continue programs (fioProg.cont)
 	mustFail bool   // the Writer must refuse this operation ("!" in the program text)
 	failKind string // F: how the OpenStream is made to fail; Y: index of the bad member
 	failed   bool   // set by fioExec: the operation returned an error (and the program went on)
+
+	pre    bool // O: the dictionary already names /ASCIIHexDecode and the caller writes hex text (data = the payload)
+	mutate bool // P while a stream is open: the caller changes its object after Put has returned
 }
 
 type fioProg struct {
@@ -102,7 +106,8 @@ type fioProg struct {
 	cont  bool   // "K": operations which fail do not end the program (error-then-continue)
 	risky string // class key of a failing operation known to leave traces (see fioErrContRisky)
 
-	createPath string // not part of the program text: write through pdf.Create(createPath, …) instead of NewWriter
+	createPrefix []byte // with createPath: the file holds these bytes already and NewWriter gets the *os.File positioned behind them
+	createPath   string // not part of the program text: write through pdf.Create(createPath, …) instead of NewWriter
 }
 
 var fioFilterByName = map[string]pdf.Filter{
@@ -164,6 +169,9 @@ func (p *fioProg) String() string {
 			} else {
 				fmt.Fprintf(&sb, "P~%d~%d~%s", op.ref.Number(), op.ref.Generation(), wire(op.obj))
 			}
+			if op.mutate {
+				sb.WriteString("~m")
+			}
 		case 'S':
 			if op.same >= 0 {
 				fmt.Fprintf(&sb, "S~%d~%d~@%d", op.ref.Number(), op.ref.Generation(), op.same)
@@ -176,12 +184,15 @@ func (p *fioProg) String() string {
 				dw = fmt.Sprintf("@%d", op.same)
 			}
 			fmt.Fprintf(&sb, "O~%d~%d~%s~%s~%d", op.ref.Number(), op.ref.Generation(), dw, fl, op.userLen)
+			if op.pre {
+				sb.WriteString("~p" + hexWire(op.data))
+			}
 		case 'W':
 			sb.WriteString("W~" + hexWire(op.data))
 		case 'F':
 			fmt.Fprintf(&sb, "F~%d~%d~%s", op.ref.Number(), op.ref.Generation(), op.failKind)
 		case 'E':
-			fmt.Fprintf(&sb, "E~%d~%d", op.ref.Number(), op.ref.Generation())
+			fmt.Fprintf(&sb, "E~%d~%d~%s", op.ref.Number(), op.ref.Generation(), op.failKind)
 		case 'Y':
 			sb.WriteString("Y~" + op.failKind)
 			for i := range op.refs {
@@ -259,6 +270,7 @@ func fioParseProg(s string) (*fioProg, error) {
 			} else if op.obj, err = fioUnwire(f[3]); err != nil {
 				return nil, err
 			}
+			op.mutate = len(f) > 4 && f[4] == "m"
 		case 'S':
 			op.ref = mkref(f[1], f[2])
 			if strings.HasPrefix(f[3], "@") {
@@ -286,6 +298,10 @@ func fioParseProg(s string) (*fioProg, error) {
 			}
 			op.filters = flt(f[4])
 			op.userLen, _ = strconv.ParseInt(f[5], 10, 64)
+			if len(f) > 6 && strings.HasPrefix(f[6], "p") {
+				op.pre = true
+				op.data = fioUnhex(f[6][1:])
+			}
 		case 'W':
 			op.data = fioUnhex(f[1])
 		case 'F':
@@ -293,6 +309,10 @@ func fioParseProg(s string) (*fioProg, error) {
 			op.failKind = f[3]
 		case 'E':
 			op.ref = mkref(f[1], f[2])
+			op.failKind = "stream"
+			if len(f) > 3 {
+				op.failKind = f[3]
+			}
 		case 'Y':
 			op.failKind = f[1]
 			for i := 2; i+1 < len(f); i += 2 {
@@ -344,6 +364,7 @@ type fioResult struct {
 	nextRef   uint32
 	objStms   []pdf.Reference // one per successful WriteCompressed which made a stream (reference learnt after the fact)
 
+	prefixDamaged   bool            // createPrefix: the bytes in front of the PDF file were changed
 	failedRefs      []pdf.Reference // cont programs: references named by operations which failed
 	acceptedInvalid []int           // cont programs: operations marked mustFail which the Writer accepted
 }
@@ -408,7 +429,16 @@ func fioExec(p *fioProg, gen func(st *fioExecState) bool) *fioResult {
 	}
 	var w *pdf.Writer
 	var err error
-	if p.createPath != "" {
+	var prefixFile *os.File
+	if p.createPath != "" && p.createPrefix != nil {
+		prefixFile, err = os.Create(p.createPath)
+		if err == nil {
+			_, err = prefixFile.Write(p.createPrefix)
+		}
+		if err == nil {
+			w, err = pdf.NewWriter(prefixFile, p.version, p.opts())
+		}
+	} else if p.createPath != "" {
 		w, err = pdf.Create(p.createPath, p.version, p.opts())
 	} else {
 		w, err = pdf.NewWriter(sink, p.version, p.opts())
@@ -463,7 +493,28 @@ func fioExec(p *fioProg, gen func(st *fioExecState) bool) *fioResult {
 				op.obj = obj
 			}
 			before := fioSnapshot(obj)
-			err = w.Put(op.ref, obj)
+			if op.mutate {
+				// the caller hands over a dictionary or array and changes it after Put has
+				// returned (here: while the stream is still open, so the object is queued)
+				arg, _ := fioUnwire(wire(obj))
+				err = w.Put(op.ref, arg)
+				switch x := arg.(type) {
+				case pdf.Dict:
+					x["Mutated"] = pdf.Integer(1)
+					for _, k := range x.SortedKeys() {
+						if k != "Mutated" {
+							delete(x, k)
+							break
+						}
+					}
+				case pdf.Array:
+					for k := range x {
+						x[k] = pdf.Name("mutated")
+					}
+				}
+			} else {
+				err = w.Put(op.ref, obj)
+			}
 			if after := fioSnapshot(obj); after != before {
 				res.mutated = append(res.mutated, fmt.Sprintf("op %d Put(%v): argument %s became %s", i, op.ref, before, after))
 			}
@@ -510,6 +561,15 @@ func fioExec(p *fioProg, gen func(st *fioExecState) bool) *fioResult {
 				}
 				dict["Length"] = pdf.Integer(op.userLen)
 			}
+			if op.pre {
+				// the data handed to the stream is already ASCIIHex-encoded, and the
+				// dictionary says so; the filters of OpenStream come on top
+				dict = pdf.Dict{}
+				for k, v := range op.dict {
+					dict[k] = v
+				}
+				dict["Filter"] = pdf.Name("ASCIIHexDecode")
+			}
 			before := fioSnapshot(dict)
 			var ws io.WriteCloser
 			ws, err = w.OpenStream(op.ref, dict, fioFilters(op.filters)...)
@@ -537,14 +597,18 @@ func fioExec(p *fioProg, gen func(st *fioExecState) bool) *fioResult {
 			}
 		case 'E':
 			// Put of an object whose formatting fails half way
-			err = w.Put(op.ref, pdf.Array{pdf.Integer(1), &pdf.Stream{Dict: pdf.Dict{}}})
+			err = w.Put(op.ref, fioUnformattable(op.failKind))
 		case 'Y':
 			// WriteCompressed with one member whose formatting fails
-			bad, _ := strconv.Atoi(op.failKind)
+			badIdx, badKind, _ := strings.Cut(op.failKind, ":")
+			bad, _ := strconv.Atoi(badIdx)
+			if badKind == "" {
+				badKind = "stream"
+			}
 			var objs []pdf.Object
 			for k := range op.refs {
 				if k == bad {
-					objs = append(objs, pdf.Array{&pdf.Stream{Dict: pdf.Dict{}}})
+					objs = append(objs, fioUnformattable(badKind))
 				} else {
 					objs = append(objs, pdf.Integer(k))
 				}
@@ -574,6 +638,9 @@ func fioExec(p *fioProg, gen func(st *fioExecState) bool) *fioResult {
 			}
 			if err == nil {
 				o := &p.ops[streamOp]
+				if o.pre {
+					streamData = o.data // what the hex text written stands for
+				}
 				res.written[streamRef] = &fioWritten{isStream: true, dict: streamWant, data: streamData, filters: o.filters, opIndex: streamOp}
 				res.order = append(res.order, streamRef)
 			}
@@ -657,6 +724,13 @@ func fioExec(p *fioProg, gen func(st *fioExecState) bool) *fioResult {
 	}()
 	res.xref, res.nextRef, _, _ = pdf.VerifWriterXRef(w)
 	switch {
+	case p.createPath != "" && p.createPrefix != nil:
+		prefixFile.Close()
+		all, _ := os.ReadFile(p.createPath)
+		if len(all) >= len(p.createPrefix) {
+			res.prefixDamaged = !bytes.Equal(all[:len(p.createPrefix)], p.createPrefix)
+			res.file = all[len(p.createPrefix):]
+		}
 	case p.createPath != "":
 		res.file, _ = os.ReadFile(p.createPath)
 	case p.seekable:
@@ -693,6 +767,31 @@ func fioFailingOpenStream(kind string) (pdf.Dict, []pdf.Filter) {
 		return pdf.Dict{}, []pdf.Filter{pdf.FilterASCIIHex{}, pdf.FilterCryptIdentity{}}
 	}
 	return pdf.Dict{"Length": pdf.Name("x")}, nil
+}
+
+// fioUnformattable returns an object which cannot be written: a stream nested
+// in an array, an operator outside a content stream, or a number which is not finite.
+func fioUnformattable(kind string) pdf.Object {
+	switch kind {
+	case "nan":
+		return pdf.Dict{"A": pdf.Real(math.NaN()), "B": pdf.Integer(1)}
+	case "+inf":
+		return pdf.Array{pdf.Integer(1), pdf.Real(math.Inf(1))}
+	case "-inf":
+		return pdf.Dict{"R": pdf.Number(math.Inf(-1))}
+	case "operator":
+		return pdf.Array{pdf.Integer(1), pdf.Operator("q")}
+	}
+	return pdf.Array{pdf.Integer(1), &pdf.Stream{Dict: pdf.Dict{}}}
+}
+
+// fioUnformattableKey is the class key of a violation caused by such an object.
+func fioUnformattableKey(kind, residueKey string) string {
+	switch kind {
+	case "nan", "+inf", "-inf":
+		return "non-finite-number-written"
+	}
+	return residueKey
 }
 
 type fioExecState struct {
@@ -925,17 +1024,22 @@ func fioGenProg(r *Rand, thorough bool, broken int) *fioResult {
 				switch r.Intn(3) {
 				case 0:
 					ref, _ := takeRef()
-					p.risky = "put-format-error-residue"
-					return add(fioOp{kind: 'E', ref: ref, mustFail: true})
+					kind := Pick(r, []string{"stream", "stream", "operator", "nan", "+inf", "-inf"})
+					p.risky = fioUnformattableKey(kind, "put-format-error-residue")
+					free = append(free, ref) // the number stays free: a later operation may use it
+					return add(fioOp{kind: 'E', ref: ref, failKind: kind, mustFail: true})
 				case 1:
 					a, _ := takeRef()
 					b, _ := takeRef()
-					p.risky = "writecompressed-error-residue"
-					return add(fioOp{kind: 'Y', refs: []pdf.Reference{a, b}, failKind: fmt.Sprint(r.Intn(2)), mustFail: true})
+					kind := Pick(r, []string{"stream", "stream", "nan"})
+					p.risky = fioUnformattableKey(kind, "writecompressed-error-residue")
+					free = append(free, a, b)
+					return add(fioOp{kind: 'Y', refs: []pdf.Reference{a, b}, failKind: fmt.Sprint(r.Intn(2)) + ":" + kind, mustFail: true})
 				default:
 					if len(written) > 0 {
 						a, _ := takeRef()
 						p.risky = "writecompressed-error-residue"
+						free = append(free, a)
 						return add(fioOp{kind: 'Z', refs: []pdf.Reference{a, written[0]}, objs: []pdf.Object{pdf.Integer(1), pdf.Integer(2)}, mustFail: true})
 					}
 				}
@@ -957,13 +1061,70 @@ func fioGenProg(r *Rand, thorough bool, broken int) *fioResult {
 					return add(fioOp{kind: 'S', ref: ref, dict: fioGenStreamDict(r), data: fioGenBody(r), userLen: -1})
 				}
 				putIdx = append(putIdx, len(p.ops))
-				return add(fioOp{kind: 'P', ref: ref, obj: genObj(r, 2, false), same: -1})
+				op := fioOp{kind: 'P', ref: ref, obj: genObj(r, 2, false), same: -1}
+				if broken == 0 && p.risky == "" && r.P(1, 3) {
+					// the caller changes the dictionary / array after Put has returned
+					switch x := op.obj.(type) {
+					case pdf.Dict:
+						if len(x) > 0 {
+							op.mutate = true
+						}
+					case pdf.Array:
+						if len(x) > 0 {
+							op.mutate = true
+						}
+					}
+					if op.mutate {
+						p.risky = "deferred-put-aliases-caller-object"
+					}
+				}
+				return add(op)
 			default:
 				if writesLeft > 0 {
 					writesLeft--
 					return add(fioOp{kind: 'W', data: fioGenBody(r)})
 				}
 				return add(fioOp{kind: 'C'})
+			}
+		}
+		if broken == 0 && p.risky == "" && len(free) > 0 && r.P(1, 14) {
+			if r.Bool() {
+				// OpenStream with filters for data which is already encoded the way the
+				// dictionary says (/Filter /ASCIIHexDecode): the filters of OpenStream
+				// are the outer encoding and must be named first
+				ref, _ := takeRef()
+				names := []string{"A85", "RL", "LZW"}
+				if p.version >= pdf.V1_2 {
+					names = append(names, "Fl", "Fl")
+				}
+				fs := []string{Pick(r, names)}
+				if r.P(1, 3) {
+					fs = append(fs, Pick(r, names))
+				}
+				payload := fioGenBody(r)
+				p.risky = "openstream-filter-order"
+				dict := pdf.Dict{}
+				if r.Bool() {
+					dict["K"] = genObj(r, 1, false)
+				}
+				add(fioOp{kind: 'O', ref: ref, dict: dict, filters: fs, userLen: -1, same: -1, pre: true, data: payload})
+				add(fioOp{kind: 'W', data: []byte(hex.EncodeToString(payload) + ">")})
+				return add(fioOp{kind: 'C'})
+			}
+			if _, nextRef, _, _ := pdf.VerifWriterXRef(st.w); !p.encrypt || true {
+				// WriteCompressed with numbers chosen by the caller (not handed out by
+				// Alloc): the object stream must not take one of them
+				n := 1 + r.Intn(3)
+				op := fioOp{kind: 'Z'}
+				for i := 0; i < n; i++ {
+					op.refs = append(op.refs, pdf.NewReference(nextRef+uint32(i), 0))
+					op.objs = append(op.objs, pdf.Dict{"Own": pdf.Integer(i)})
+				}
+				if r.P(1, 3) {
+					op.refs[n-1] = pdf.NewReference(nextRef+uint32(n)+uint32(r.Intn(5)), 0)
+				}
+				p.risky = "writecompressed-container-takes-member-number"
+				return add(op)
 			}
 		}
 		k := r.Intn(20)
@@ -1459,11 +1620,6 @@ func fioModelLine(res *fioResult) (string, error) {
 		// the caller's values are no longer what the program says (reported by the oracle)
 		return "", errFioSkip
 	}
-	if p.risky != "" {
-		// a failing operation known to leave traces: the model (which says that a
-		// failure leaves none) is not asked
-		return "", errFioSkip
-	}
 	failed := res.failedAt != -1
 	if failed && p.cont {
 		return "", errFioSkip
@@ -1523,6 +1679,9 @@ func fioModelLine(res *fioResult) (string, error) {
 					fmt.Fprintf(&sb, "~%d~%d~%s", ref.Number(), ref.Generation(), wire(op.objs[k]))
 				}
 				ops = append(ops, sb.String())
+			case 'E', 'Y':
+				// an object which cannot be formatted is refused before anything is
+				// changed: for the model the operation did not take place
 			default:
 				return "", errFioSkip
 			}
@@ -1835,7 +1994,82 @@ func fioStatProg(c *Ctx, res *fioResult) {
 	}
 }
 
+// fioCloseOverflowCase: the largest object number is used by the caller, so that
+// Close, which allocates numbers itself, has none left: it must report an error,
+// not panic.
+func fioCloseOverflowCase(c *Ctx) {
+	for _, v := range []pdf.Version{pdf.V1_4, pdf.V1_7} {
+		p := &fioProg{version: v, seekable: true, risky: "close-panics-object-number-overflow",
+			ops: []fioOp{{kind: 'P', ref: pdf.NewReference(1<<24-1, 0), obj: pdf.Integer(1), same: -1, userLen: -1}}}
+		res := fioExec(p, nil)
+		text := p.String()
+		c.Case(text, true)
+		c.Stat("prog_close_overflow")
+		if res.panicked {
+			c.Violate("file-roundtrip", p.risky, fmt.Sprintf("Put(%v) was accepted and Writer.Close panics: %v", p.ops[0].ref, res.err), text)
+		} else if res.failedAt == -1 {
+			c.Violate("file-roundtrip", p.risky, "Close succeeded although no object number was left for the catalog", text)
+		}
+	}
+}
+
+// fioFeaturePrograms: one small program per class of behaviour which the random
+// generator reaches only now and then, so that every class is exercised in every
+// quick run (both cross-reference forms, both kinds of sink).
+func fioFeaturePrograms() []*fioProg {
+	ref := func(n int) pdf.Reference { return pdf.NewReference(uint32(n), 0) }
+	put := func(n int, o pdf.Object) fioOp { return fioOp{kind: 'P', ref: ref(n), obj: o, same: -1, userLen: -1} }
+	alloc := fioOp{kind: 'A', same: -1, userLen: -1}
+	var progs []*fioProg
+	for _, v := range []pdf.Version{pdf.V1_4, pdf.V1_7} {
+		for _, seekable := range []bool{true, false} {
+			mk := func(risky string, cont bool, ops ...fioOp) {
+				progs = append(progs, &fioProg{version: v, seekable: seekable, cont: cont, risky: risky, ops: ops})
+			}
+			// (object 1 is the page tree reference which fioExec allocates)
+			for _, kind := range []string{"stream", "operator"} {
+				mk("put-format-error-residue", true, alloc, alloc, alloc, put(2, pdf.Integer(5)),
+					fioOp{kind: 'E', ref: ref(3), failKind: kind, mustFail: true}, put(3, pdf.Name("retried")), put(4, pdf.Integer(7)))
+			}
+			for _, kind := range []string{"nan", "+inf", "-inf"} {
+				mk("non-finite-number-written", true, alloc, alloc, alloc, put(2, pdf.Integer(5)),
+					fioOp{kind: 'E', ref: ref(3), failKind: kind, mustFail: true}, put(3, pdf.Name("retried")), put(4, pdf.Integer(7)))
+			}
+			mk("non-finite-number-written", true, alloc, alloc, alloc,
+				fioOp{kind: 'Y', refs: []pdf.Reference{ref(2), ref(3)}, failKind: "0:nan", mustFail: true}, put(2, pdf.Integer(1)), put(4, pdf.Name("C")))
+			for _, bad := range []string{"0:stream", "1:stream"} {
+				mk("writecompressed-error-residue", true, alloc, alloc, alloc,
+					fioOp{kind: 'Y', refs: []pdf.Reference{ref(2), ref(3)}, failKind: bad, mustFail: true},
+					put(2, pdf.Integer(1)), put(3, pdf.Integer(2)), put(4, pdf.Name("C")))
+			}
+			mk("writecompressed-error-residue", true, alloc, alloc, alloc, put(2, pdf.Integer(1)),
+				fioOp{kind: 'Z', refs: []pdf.Reference{ref(3), ref(2)}, objs: []pdf.Object{pdf.Integer(1), pdf.Integer(2)}, mustFail: true},
+				put(3, pdf.Integer(3)), put(4, pdf.Name("C")))
+			mk("writecompressed-container-takes-member-number", false,
+				fioOp{kind: 'Z', refs: []pdf.Reference{ref(2), ref(3)}, objs: []pdf.Object{pdf.Dict{"Own": pdf.Integer(0)}, pdf.Integer(2)}},
+				alloc, put(5, pdf.Name("after")))
+			mk("deferred-put-aliases-caller-object", false, alloc, alloc, alloc,
+				fioOp{kind: 'O', ref: ref(2), dict: pdf.Dict{}, userLen: -1, same: -1},
+				fioOp{kind: 'W', data: []byte("abc")},
+				fioOp{kind: 'P', ref: ref(3), obj: pdf.Dict{"A": pdf.Integer(1), "B": pdf.Integer(2)}, same: -1, userLen: -1, mutate: true},
+				fioOp{kind: 'P', ref: ref(4), obj: pdf.Array{pdf.Integer(1), pdf.Name("x")}, same: -1, userLen: -1, mutate: true},
+				fioOp{kind: 'C'})
+			if v >= pdf.V1_2 {
+				mk("openstream-filter-order", false, alloc,
+					fioOp{kind: 'O', ref: ref(2), dict: pdf.Dict{"K": pdf.Integer(1)}, filters: []string{"Fl"}, userLen: -1, same: -1, pre: true, data: []byte("payload")},
+					fioOp{kind: 'W', data: []byte(hex.EncodeToString([]byte("payload")) + ">")},
+					fioOp{kind: 'C'})
+			}
+		}
+	}
+	return progs
+}
+
 func runFIOProg(c *Ctx) {
+	fioCloseOverflowCase(c)
+	for _, p := range fioFeaturePrograms() {
+		fioRunOneProg(c, fioExec(p, nil), 0, false)
+	}
 	r := c.R.Fork()
 	n := 450
 	if c.Thorough {
@@ -1851,59 +2085,67 @@ func runFIOProg(c *Ctx) {
 				broken = -2 // … with one failing operation known to leave traces
 			}
 		}
-		res := fioGenProg(r.Fork(), c.Thorough, broken)
-		text := res.prog.String()
-		c.Case(text, len(res.written) > 0)
-		fioStatProg(c, res)
-		fioStatCont(c, res)
-		if i < 4 {
-			c.Sample("program: " + text)
-		}
-		if res.failedAt == -2 {
-			c.Violate("file-roundtrip", "newwriter-failed", "NewWriter: "+res.err.Error(), text)
-			continue
-		}
-		expectFail := broken > 0 && res.failedAt >= 0
-		if res.failedAt != -1 {
-			c.Stat("prog_failed")
-			if broken == 0 {
-				key := "writer-rejects-valid-program"
-				if res.panicked {
-					key = "writer-panic"
-				}
-				key = fioClassifyFailure(res, key)
-				if res.prog.risky != "" {
-					key = res.prog.risky
-				}
-				c.Violate("file-roundtrip", key, fmt.Sprintf("op %d of a valid program failed: %v", res.failedAt, res.err), text)
+		fioRunOneProg(c, fioGenProg(r.Fork(), c.Thorough, broken), broken, i < 4)
+	}
+}
+
+// fioRunOneProg judges one executed program: oracle on the implementation and
+// the line for the writer model.
+func fioRunOneProg(c *Ctx, res *fioResult, broken int, sample bool) {
+	text := res.prog.String()
+	c.Case(text, len(res.written) > 0)
+	fioStatProg(c, res)
+	fioStatCont(c, res)
+	if !res.prog.cont && res.prog.risky != "" {
+		c.Stat("prog_feature_" + res.prog.risky)
+	}
+	if sample {
+		c.Sample("program: " + text)
+	}
+	if res.failedAt == -2 {
+		c.Violate("file-roundtrip", "newwriter-failed", "NewWriter: "+res.err.Error(), text)
+		return
+	}
+	expectFail := broken > 0 && res.failedAt >= 0
+	if res.failedAt != -1 {
+		c.Stat("prog_failed")
+		if broken <= 0 {
+			key := "writer-rejects-valid-program"
+			if res.panicked {
+				key = "writer-panic"
 			}
-		} else if broken > 0 {
-			c.Stat("prog_broken_but_accepted")
-		}
-		_ = expectFail
-		for _, v := range oracleFileRoundTrip(res) {
+			key = fioClassifyFailure(res, key)
 			if res.prog.risky != "" {
-				v.key = res.prog.risky
+				key = res.prog.risky
 			}
-			c.Violate("file-roundtrip", v.key, v.desc, text)
+			c.Violate("file-roundtrip", key, fmt.Sprintf("op %d of a valid program failed: %v", res.failedAt, res.err), text)
 		}
-		// correspondence with the writer model: same bytes, or failure at the same operation
-		line, err := fioModelLine(res)
-		if err == errFioSkip {
-			c.Stat("prog_without_model_line")
-			continue
+	} else if broken > 0 {
+		c.Stat("prog_broken_but_accepted")
+	}
+	_ = expectFail
+	for _, v := range oracleFileRoundTrip(res) {
+		if res.prog.risky != "" && v.key != "xref-stream-entry-cap" {
+			v.key = res.prog.risky
 		}
-		if err != nil {
-			if res.failedAt == -1 {
-				c.Violate("file-roundtrip", "file-not-parseable", "taking the written file apart: "+err.Error(), text)
-			}
-			continue
+		c.Violate("file-roundtrip", v.key, v.desc, text)
+	}
+	// correspondence with the writer model: same bytes, or failure at the same operation
+	line, err := fioModelLine(res)
+	if err == errFioSkip {
+		c.Stat("prog_without_model_line")
+		return
+	}
+	if err != nil {
+		if res.failedAt == -1 {
+			c.Violate("file-roundtrip", "file-not-parseable", "taking the written file apart: "+err.Error(), text)
 		}
-		if res.failedAt != -1 {
-			c.Emit(line, fmt.Sprintf("err %d", res.failedAt+1))
-		} else {
-			c.Emit(line, "ok "+hexWire(res.file))
-		}
+		return
+	}
+	if res.failedAt != -1 {
+		c.Emit(line, fmt.Sprintf("err %d", res.failedAt+1))
+	} else {
+		c.Emit(line, "ok "+hexWire(res.file))
 	}
 }
 
